@@ -27,6 +27,8 @@ extra["equal_op"] += "    //@exprmap *op1 == op2 => (*op1).vx_eq(op2)\n"
 extra["not_equals_op"] += "    //@exprmap *op1 != op2 => (*op1).vx_ne(op2)\n"
 extra["and_op"] = "    //@exprmap *op1 != 0.0 => (*op1).vx_ne(0.0)\n    //@exprmap op2 != 0.0 => op2.vx_ne(0.0)\n"
 extra["or_op"] = "    //@exprmap *op1 != 0.0 => (*op1).vx_ne(0.0)\n    //@exprmap op2 != 0.0 => op2.vx_ne(0.0)\n"
+extra["int_op"] = "    //@exprmap *op1 as i32 => f32_as_i32(*op1)\n"
+extra["float_op"] = "    //@exprmap *op1 as f32 => i32_as_f32(*op1)\n"
 extra["not_op"] = "    //@exprmap *op1 == 0.0 => (*op1).vx_eq(0.0)\n"
 out = []
 for f in binops + unops:
